@@ -29,6 +29,7 @@ import core
 from ser import Ser, Ids, Unsupported, rat
 
 LEAN_MODULE = "Optyx.Props.C16"
+EXTRA_MODULES = ["Optyx.Props.PinsC16"]   # transcription anchors (harness/source_pins.py)
 THEOREMS = [
     "Optyx.Props.C16.problemVariables_spec",
     "Optyx.Props.C16.generalVariables_spec",
@@ -42,6 +43,7 @@ THEOREMS = [
     "Optyx.Props.C16.problemVariables_perm_invariant",
     "Optyx.Props.C16.get_bounds_spec",
     "Optyx.Props.SortText.sortKey_text",
+    "Optyx.Props.PinsC16.anchors",
 ]
 ASSUMPTIONS = [
     "ASCII digits only in names (Python's \\d also matches other Unicode decimal digits)",
